@@ -800,6 +800,16 @@ impl HuffmanDecoder {
             None => return Err(ZiporaError::invalid_data("Empty Huffman tree")),
         };
 
+        // Every decoded symbol consumes at least one bit (plus one trailing leaf), so a larger
+        // expected length can never be satisfied: reject it instead of allocating for it.
+        let max_symbols = encoded_data.len().saturating_mul(8).saturating_add(1);
+        if output_length > max_symbols {
+            return Err(ZiporaError::invalid_data(format!(
+                "Expected length {} exceeds the {} symbols the encoded data can hold",
+                output_length, max_symbols
+            )));
+        }
+
         let mut result = Vec::with_capacity(output_length);
         let mut current_node = root;
 
